@@ -67,6 +67,35 @@ func idGrid(p *pureAcc) {
 			ctxIDs = append(ctxIDs, id)
 		}
 	}
+	// the same transaction hash used for several messages, held in a buffer with spare capacity (as a host chain that
+	// slices the hash out of a larger buffer, or out of an earlier ID, would pass it): an ID already handed out must
+	// keep decoding to what it was built from
+	for _, tx := range txs {
+		buf := make([]byte, 32, 64)
+		copy(buf, tx)
+		first := st.GenerateRequestContextID(buf, 0)
+		snap := append([]byte{}, first...)
+		second := st.GenerateRequestContextID(buf, 1)
+		p.ev.Evaluations++
+		in := fmt.Sprintf("tx=%X idx=0 then idx=1 from one buffer", tx)
+		if !bytes.Equal(first, snap) {
+			p.fail("context-id-round-trips", "overwritten-by-a-later-id", "the context ID of message 0 changed when the ID of message 1 was generated from the same hash buffer: "+in, in)
+		} else if gtx, gmi, err := st.SplitRequestContextID(first); err != nil || !bytes.Equal(gtx, tx) || gmi != 0 {
+			p.fail("context-id-round-trips", "overwritten-by-a-later-id", in, in)
+		}
+		if bytes.Equal(first, second) {
+			p.fail("distinct-inputs-give-distinct-context-ids", "same-buffer", in+": both IDs are equal", in)
+		}
+		// a hash taken from an existing ID by the module's own splitter
+		htx, _, _ := st.SplitRequestContextID(append([]byte{}, snap...))
+		idA := append([]byte{}, snap...)
+		h2, _, _ := st.SplitRequestContextID(idA)
+		_ = htx
+		_ = st.GenerateRequestContextID(h2, 5)
+		if !bytes.Equal(idA, snap) {
+			p.fail("context-id-round-trips", "overwritten-through-its-split-hash", "generating an ID from the hash returned by SplitRequestContextID rewrote the ID that was split: "+in, in)
+		}
+	}
 	p.ev.Counters["context-ids"] = int64(len(ctxSeen))
 	reqSeen := map[string]string{}
 	for _, cid := range ctxIDs[:8] {
